@@ -460,6 +460,8 @@ func checkC06(w *World, r *Report) {
 	// ---- R06.2 / R06.3
 	s.checkInheritance(r, choke)
 	checkPolicyQueriesPure(w, r)
+	checkNoNestedTopLevelRender(w, r, reach)
+	checkEveryFilterBecomesANode(w, r)
 
 	// ---- R06.5: conversions of FilterFunc/FunctionFunc values to interfaces in render-reachable code
 	n65 := 0
@@ -1010,4 +1012,141 @@ func checkPolicyQueriesPure(w *World, r *Report) {
 		}
 	}
 	r.floor("policy query methods of the package's SecurityPolicy implementations", n, 2)
+}
+
+// checkNoNestedTopLevelRender — R06.7: below a render, templates are rendered in a context derived
+// from the current one.  A render-reachable function that has a *RenderContext in scope never
+// calls the top-level entry points (Template.Render/RenderTo, Engine.Render/RenderTo): those start
+// from a brand-new context, which is not sandboxed and has no link to the including scope, so a
+// template reached that way escapes the sandbox of the render that asked for it.
+func checkNoNestedTopLevelRender(w *World, r *Report, reach map[*ssa.Function]bool) {
+	top := map[*types.Func]bool{}
+	for _, pair := range [][2]string{{"Template", "Render"}, {"Template", "RenderTo"}, {"Engine", "Render"}, {"Engine", "RenderTo"}} {
+		if m := w.tryMethod(pair[0], pair[1]); m != nil {
+			top[m] = true
+		}
+	}
+	ctxT := types.NewPointer(w.named("RenderContext"))
+	n, bad := 0, 0
+	// "inside a render": reachable from a node's Render or from the evaluator (the top-level entry
+	// points and their debug wrapper start renders, they are not inside one)
+	var inner []*ssa.Function
+	for _, nd := range w.nodeStructs() {
+		if m := w.tryMethod(nd.Obj().Name(), "Render"); m != nil {
+			inner = append(inner, w.ssaFunc(m))
+		}
+	}
+	inner = append(inner, w.ssaFunc(w.method("RenderContext", "EvaluateExpression")))
+	reach = w.reachableFrom(inner)
+	for _, fn := range w.pkgFuncs() {
+		if !reach[fn] {
+			continue
+		}
+		hasCtx := false
+		for _, p := range fn.Params {
+			if types.Identical(p.Type(), ctxT) {
+				hasCtx = true
+			}
+		}
+		for _, fv := range fn.FreeVars {
+			if types.Identical(fv.Type(), ctxT) || types.Identical(fv.Type(), types.NewPointer(ctxT)) {
+				hasCtx = true
+			}
+		}
+		if !hasCtx {
+			continue
+		}
+		n++
+		instrsOf(fn, func(in ssa.Instruction) {
+			c, ok := in.(ssa.CallInstruction)
+			if !ok {
+				return
+			}
+			if f := calleeFunc(c); f != nil && top[f] {
+				bad++
+				r.bad("R06.7", ssaName(fn), "nested rendering derives its context from the current one", w.posOf(in.Pos()), "a function that runs inside a render (it has a render context in scope) calls the top-level entry point "+f.FullName()+": the template is rendered in a brand-new context — not sandboxed, whatever the current context is — so filters and functions the policy forbids run below a sandboxed include")
+			}
+		})
+	}
+	if bad == 0 {
+		r.ok("R06.7", "(package)", "nested rendering derives its context from the current one", "-", fmt.Sprintf("none of the %d render-reachable functions with a render context in scope calls Template.Render/RenderTo or Engine.Render/RenderTo", n), true)
+	}
+}
+
+// checkEveryFilterBecomesANode — R06.8: a filter written in a template is applied when the
+// template renders — through ApplyFilter, where the sandbox is consulted.  In the parser function
+// that builds FilterNodes, every pass of the loop that consumes `| name` either leaves the
+// function or builds the node; a pass that resolves the filter on the spot (constant folding of
+// upper/lower/trim on a literal) applies a filter the policy was never asked about.
+func checkEveryFilterBecomesANode(w *World, r *Report) {
+	filterNodeT := w.named("FilterNode")
+	parseReach := w.parseReachable()
+	n := 0
+	for _, fn := range w.pkgFuncs() {
+		if !parseReach[fn] {
+			continue
+		}
+		var allocBlocks = map[*ssa.BasicBlock]bool{}
+		var first ssa.Instruction
+		instrsOf(fn, func(in ssa.Instruction) {
+			switch x := in.(type) {
+			case *ssa.Alloc:
+				if types.Identical(deref(x.Type()), filterNodeT) {
+					allocBlocks[in.Block()] = true
+					if first == nil {
+						first = in
+					}
+				}
+			case *ssa.Call:
+				if g := x.Call.StaticCallee(); g != nil && w.inPkg(g) && g.Signature.Results().Len() >= 1 && types.Identical(deref(g.Signature.Results().At(0).Type()), filterNodeT) {
+					allocBlocks[in.Block()] = true
+					if first == nil {
+						first = in
+					}
+				}
+			}
+		})
+		if first == nil {
+			continue
+		}
+		// the loop around the construction: blocks on a cycle with it
+		ab := first.Block()
+		reachFrom := func(start *ssa.BasicBlock, avoid map[*ssa.BasicBlock]bool) map[*ssa.BasicBlock]bool {
+			seen := map[*ssa.BasicBlock]bool{}
+			var dfs func(b *ssa.BasicBlock)
+			dfs = func(b *ssa.BasicBlock) {
+				for _, s := range b.Succs {
+					if !seen[s] && !avoid[s] {
+						seen[s] = true
+						dfs(s)
+					}
+				}
+			}
+			dfs(start)
+			return seen
+		}
+		fwd := reachFrom(ab, nil)
+		if !fwd[ab] {
+			continue // not in a loop: a single filter is parsed here
+		}
+		// header: the block of the cycle that dominates the construction and every block of the cycle
+		var header *ssa.BasicBlock
+		for b := ab; b != nil; b = b.Idom() {
+			if fwd[b] && reachFrom(b, nil)[ab] {
+				header = b
+			}
+		}
+		if header == nil {
+			continue
+		}
+		n++
+		after := reachFrom(header, allocBlocks)
+		construct := "every `| filter` parsed becomes a FilterNode"
+		if after[header] {
+			r.bad("R06.8", ssaName(fn), construct, w.posOf(first.Pos()), "the loop that consumes filters can go round without building a FilterNode for the filter it just read: that filter is dropped or resolved while parsing, so it is never applied through ApplyFilter at render time — where a sandbox policy that forbids it would have been consulted")
+		} else {
+			r.ok("R06.8", ssaName(fn), construct, w.posOf(first.Pos()), "each pass of the loop builds the node or leaves the function", true)
+		}
+	}
+	r.floor("filter-parsing loops", n, 1)
 }
